@@ -102,4 +102,11 @@ example :
     (TrkSeq.run [⟨[35], false, false, false, 1⟩] [.track [47, 112] .lock, .track [47, 112] .none]).map (fun l => (l.pat, l.lfs, l.lockable)) =
       [([35], false, false), ([47, 112], true, true)] := by decide
 
+/-- a lock flag given for a pattern that a line of the file spells exactly changes a line of that spelling — not
+    lockable afterwards — whatever other lines cover the same files (D77) -/
+theorem seq_unlock_takes_effect_on_the_exact_line (ls : List TrkSeq.Line) (p : TrkSeq.Bytes)
+    (h : ∃ l ∈ ls, TrkSeq.known l = true ∧ l.pat = p) :
+    ∃ l ∈ TrkSeq.track ls p .unlock, l.pat = p ∧ l.lfs = true ∧ l.lockable = false :=
+  TrkSeq.track_unlock_exact ls p h
+
 end C19
